@@ -717,11 +717,17 @@ func nextTx(file io.Reader) (txId uint64, checksum []byte, tx []byte, err error)
 	signSize := binary.BigEndian.Uint32(header[txSignSizeOffset:])
 	txSize := binary.BigEndian.Uint32(header[txSizeOffset:])
 
-	payload := make([]byte, signSize+txSize)
-	_, err = io.ReadFull(file, payload)
+	// the sizes announced by the file are not trusted: the record is read as it comes, its size never sizes a buffer
+	// (and the two 32-bit sizes are not added in 32 bits)
+	var buf bytes.Buffer
+	n, err := io.CopyN(&buf, file, int64(signSize)+int64(txSize))
+	if err == io.EOF && n > 0 {
+		err = io.ErrUnexpectedEOF
+	}
 	if err != nil {
 		return
 	}
+	payload := buf.Bytes()
 
 	checksum = payload[:signSize]
 	tx = payload[signSize:]
